@@ -707,7 +707,7 @@ func oddCorpus(tier string) []tplSpec {
 	for hi, h := range hosts {
 		for oi, o := range odd {
 			tags := []string{"odd"}
-			if ((hi+oi)%3 == 0 && !(strings.HasPrefix(h.name, "anykey") && o.name == "arr-arr-doc")) || strings.HasPrefix(h.name, "anykey") && (o.name == "null" || o.name == "doc-null" || o.name == "num") {
+			if ((hi+oi)%3 == 0 && !(strings.HasPrefix(h.name, "anykey") && (o.name == "arr-arr-doc" || o.name == "arr-dollar" || o.name == "arr-mixed"))) || strings.HasPrefix(h.name, "anykey") && (o.name == "null" || o.name == "doc-null" || o.name == "num") {
 				tags = append(tags, "quick")
 			}
 			g.add("odd:"+h.name+"/"+o.name, mk(strings.Replace(h.text, "@O", o.v, 1)), tags...)
